@@ -25,6 +25,7 @@ def _has_quant(t):
 
 
 class ExcVal:
+    origin = None      # short name of the callee whose contract raised it (for path tags)
     def __init__(self, cls, msg=None):
         self.cls = cls
         self.msg = msg if msg is not None else fresh(STR, 'excmsg')
@@ -437,6 +438,9 @@ class Evaluator:
                 if s is None:
                     return []
                 v = SV(TObj(v.ty.cls), v.t)
+            if not repo.in_repo(v.ty.cls) and self.W.field_decl(v.ty.cls, name) is None:
+                # method of an external class: called through its assumed contract
+                return [(s, SV(TFunc(), (), py=Static(('extmethod', v.ty.cls, name), recv=v)))]
             res = []
             for s2, val in self.read_attr_obj(v, name, s):
                 s2 = s2.assume(*self.W.type_facts(val, s2.heap, s2.entry_heap))
